@@ -496,6 +496,7 @@ func runC07(args []string) error {
 		for i := 0; i < *f.N; i++ {
 			cases = append(cases, genCase(r))
 		}
+		cases = append(cases, bigCase(300), bigCase(1100))
 	}
 	rep := drv.Report{Property: "C07", Seed: *f.Seed, Shard: caseShard, Stats: map[string]int{}, Cases: len(cases),
 		Rule: "a primary session programs next hops, groups and IPv4/IPv6/MPLS entries built with the fluent builders (every With*/Add* method, random subsets and combinations, cross-instance group references, implicit and explicit replaces, deletes, some values the schema rejects) in up to three instances, interleaved with Get over {no instance, all, \"\", DEFAULT, VRF-A, VRF-B, unknown} x {ALL, IPV4, IPV6, MPLS, NEXTHOP_GROUP, NEXTHOP, unsupported}; non-trivial = the closing Get(all, ALL) returned entries of at least three kinds, some returned next hop carries at least three leaves, and the script itself contains a Get that returned entries and a Get that was filtered by table or instance or was rejected; distinct by script text"}
